@@ -10,6 +10,20 @@ BASELINE = "cd /repo && /venv/bin/python -m pytest -ra -q -p no:cacheprovider --
 
 # id -> (category, technique, text, note, design_ref, engine)
 CHECKS = {
+    "C06": (
+        "exploration",
+        "exhaustive sweep: every one-instruction program (opcode x operand representation x boundary operands) through the real SEVM.run compared with a reference EVM, plus complete 8-bit/4-bit operand grids through the HalmosBitVec methods",
+        "For each of the 25 word-level opcodes, every combination of operand representation (concrete PUSH, calldata-symbolic, symbolic Bool-typed, "
+        "concrete Bool-typed) is assembled into a one-instruction program and executed by the real SEVM.run; the reported result is evaluated for every "
+        "operand tuple of the 256-bit boundary grid W (16-33 values per operand) under the exact meaning of the f_evm_* abstractions and compared with an "
+        "independent Python-int EVM. A stuck path, an exception or a concrete operation that does not finish within 3 s (forked child under alarm) fails. "
+        "Complete grids: all 65,536 operand pairs at 8 bits for 21 width-generic methods and all 4,096 triples at 4 bits for addmod/mulmod, each in "
+        "concrete, symbolic and mixed representation.",
+        "Trusted: mc/refevm.py (reference semantics), mc/symeval.py (ground evaluator, SMT-LIB semantics of interpreted operators). "
+        "Not claimed: validity over all 2^512 operand pairs at 256 bits (needs an SMT proof, a different technique).",
+        "DESIGN.md §4 C06",
+        "A",
+    ),
     "C07": (
         "model_checking",
         "explicit-state exploration of every ByteVec operation history up to a depth bound, each replayed on the real objects and compared byte for byte with a flat-list reference model",
